@@ -135,6 +135,16 @@ def install():
                         'metrics': res.get('metrics'),
                         'open_trades': {k: [getattr(o, '_vf_oid', -1) for o in t.orders] for k, t in store.completed_trades.tempt_trades.items()},
                         'final_statuses': [o.status for o in ORDERS], 'via': [getattr(o, 'submitted_via', None) for o in ORDERS]}
+        if STATE['observe'] == 3:
+            from jesse.routes import router
+            stored = {}
+            for r in router.all_formatted_routes:
+                for tf in {r['timeframe'], '1m'}:
+                    try:
+                        stored['%s|%s' % (r['symbol'], tf)] = store.candles.get_candles(r['exchange'], r['symbol'], tf).tolist()
+                    except Exception as e:
+                        stored['%s|%s' % (r['symbol'], tf)] = 'EXC:%s:%s' % (type(e).__name__, e)
+            STATE['end']['stored_candles'] = stored
         return res
 
     backtest_mode._generate_outputs = w_out
@@ -200,6 +210,65 @@ def digest(arr):
     return hashlib.blake2b(a.tobytes(), digest_size=8).hexdigest() + ':%d' % len(a)
 
 
+C07 = {'comparisons': 0, 'forming_seen': 0}
+
+
+def aggregate(rows_1m, tf_minutes):
+    """reference aggregation: one row per started aligned window"""
+    out = []
+    win = None
+    span = tf_minutes * 60000
+    for r in rows_1m:
+        w = int(r[0]) - int(r[0]) % span
+        if w != win:
+            out.append([float(w), float(r[1]), float(r[2]), float(r[3]), float(r[4]), float(r[5])])
+            win = w
+        else:
+            o = out[-1]
+            o[2] = float(r[2])
+            o[3] = max(o[3], float(r[3]))
+            o[4] = min(o[4], float(r[4]))
+            o[5] += float(r[5])
+    return out
+
+
+def rows_differ(got, want):
+    if len(got) != len(want):
+        return 'row count %d, aggregation of the stored 1m candles has %d windows' % (len(got), len(want))
+    for i, (g, w) in enumerate(zip(got, want)):
+        for j in range(5):
+            if float(g[j]) != w[j]:
+                return 'row %d of %d (window %d): %s, aggregation gives %s' % (i, len(want), int(w[0] - TS0) // 60000, [float(x) for x in g], w)
+        if abs(float(g[5]) - w[5]) > 1e-9 * max(1.0, abs(w[5])):
+            return 'row %d volume %r, aggregation gives %r' % (i, float(g[5]), w[5])
+    return None
+
+
+def _c07_compare(strategy, hook):
+    from jesse.store import store
+    from jesse.modes.backtest_mode import timeframe_to_one_minutes as T
+    for (sym, tf) in strategy.spec.get('reads', []):
+        one = store.candles.get_candles(strategy.exchange, sym, '1m')
+        want = aggregate(one, T[tf])
+        C07['comparisons'] += 1
+        where = 'trading-route' if (sym == strategy.symbol and tf == strategy.timeframe) else 'other-route'
+        try:
+            got = strategy.get_candles(strategy.exchange, sym, tf)
+        except Exception as e:
+            TRACE.append(('c07', sym, tf, hook, now(), 'get_candles-raises', where, '%s: %s' % (type(e).__name__, str(e)[:100]), len(want)))
+            continue
+        if len(one) % T[tf]:
+            C07['forming_seen'] += 1
+        d = rows_differ(got, want)
+        if d:
+            TRACE.append(('c07', sym, tf, hook, now(), 'candles-differ', where, d, len(want)))
+        if sym == strategy.symbol and tf == strategy.timeframe and len(want):
+            cur = strategy.current_candle
+            d = rows_differ([cur], [want[-1]])
+            if d:
+                TRACE.append(('c07', sym, tf, hook, now(), 'current-candle-differs', where, d, len(want)))
+
+
 def _strategy_base():
     from jesse.strategies import Strategy
 
@@ -223,6 +292,10 @@ def _strategy_base():
                 price = 'EXC:' + type(e).__name__
             ev = ['hook', self.symbol, name, now(), self.index, p.qty, p.entry_price, price,
                   float(self.balance), float(self.available_margin)]
+            if lvl == 3:
+                _c07_compare(self, name)
+                TRACE.append(('hook', self.symbol, name, now(), self.index, p.qty))
+                return
             if lvl >= 2:
                 views = {}
                 for (sym, tf) in self.spec.get('reads', []) + [(self.symbol, self.timeframe)]:
